@@ -16,7 +16,9 @@ class Check(CheckBase):
             'snapshots/. Oracles: after every completed delete, no chunk that was referenced only by the deleted snapshots '
             'remains; after every completed clean by user u, chunk objects of family(u) == locations referenced by the '
             'remaining snapshot objects of family(u) (independent reader); objects of every other family, config and foreign '
-            'objects byte-identical before/after both commands; location builder/parser are mutually inverse on every call. '
+            'objects byte-identical before/after both commands; location builder/parser are mutually inverse on every call; the same '
+            'oracles around `replicat delete <printed name> -y`, a delete of somebody else\'s snapshot and `replicat clean` run as child '
+            'processes on a local repository (directory images before/after). '
             'class = (key-graph class, encrypted?, flavour, had-orphans?, command)')
     assumptions = ['the chunk and snapshot areas contain only objects written by replicat (property text)',
                    'vflib/refimpl.py decodes the format correctly (cross-checked by C14)']
